@@ -306,4 +306,39 @@ def gfFrom (P : Params) (x : ℕ → ℚ) : ℕ → List ℕ → ℚ
 /-- two photons of the mode carry the same tag -/
 def hasDup (m : Mode) : Bool := !decide m.Nodup
 
+/-- weight of a tag: `a` for the common signal tag (`_:0`, or no annotation at all — the mixture of a
+source that is not partially distinguishable carries no annotations), `b` for every fresh tag -/
+def tagW (a b : ℚ) : Tag → ℚ
+  | none => a
+  | some 0 => a
+  | some (_ + 1) => b
+
+/-- weight of the signal photon: it carries the common tag with probability `r = √I` -/
+def sigS (P : Params) (a b : ℚ) : ℚ := P.r * a + (1 - P.r) * b
+
+/-- the *physical description* of one requested photon as a generating function in (`a` = weight of a
+photon with the common tag, `b` = weight of a photon with a fresh tag): nothing is emitted with
+probability `1 − β`; one photon (the signal) with probability `p1`; two (signal + extra) with
+probability `p2`; every emitted photon survives independently with probability `η`; the signal photon
+carries the common tag with probability `r`; the extra photon is fresh in the "distinguishable"
+model and carries the common tag in the "indistinguishable" model. -/
+def tagGF (P : Params) (a b : ℚ) : ℚ :=
+  (1 - P.beta) + p1 P * ((1 - P.eta) + P.eta * sigS P a b) +
+    p2 P * ((1 - P.eta) + P.eta * sigS P a b) * ((1 - P.eta) + P.eta * (if P.dm then b else a))
+
+/-- the photon carries the common tag (or the mixture is unannotated) -/
+def commonTag : Tag → Bool
+  | none => true
+  | some 0 => true
+  | some (_ + 1) => false
+
+/-- the fresh (non-common) tags of a list of photons, with multiplicity -/
+def freshTags (m : Mode) : List Tag := m.filter fun tg => !commonTag tg
+
+/-- every photon of the state carries the common tag -/
+def allCommon (s : State) : Bool := s.all fun m => m.all commonTag
+
+/-- photon number of an event `(i, j, k)` of the table -/
+def evPhotons (e : ℕ × ℕ × ℕ) : ℕ := e.1 + e.2.1 + 2 * e.2.2
+
 end PM.C06
